@@ -24,7 +24,7 @@ RULE = ('seeded random first extractions (7 families, n 3..300, stop rule x thre
         '{1,2,3,7,20,100,1000} x interp x pad x energy_thresh) plus every layer input of probed sifts and perturbed '
         'neighbours of inputs whose extrema vanished after k>1 iterations; non-trivial = the model performed at least '
         'one mean removal; distinct by sha1 of (input bytes, options)')
-ASSUMPTIONS = ['the energy-threshold flag is judged only when both energies are > 0 and the ratio is >= 1 dB from the threshold']
+ASSUMPTIONS = ['the energy-threshold flag is judged when the input has energy and the ratio is >= 1 dB from the threshold (a residue without energy is an infinite ratio)']
 
 TOL = 1e-10
 GUARD = 1e-6
@@ -85,14 +85,23 @@ def gen_case(rng):
     if eo['interp_method'] != 'splrep':
         n = min(n, 150)
     x = gens.signal(rng, kind, n)
+    if rng.random() < .03:
+        # exactly symmetric about zero: the local mean is exactly zero, nothing is removed, the residue has no energy
+        kind = 'symmetric'
+        n = int(gens.pick(rng, [16, 40, 100])) * 2
+        x = np.tile([1.0, -1.0], n // 2) * float(gens.pick(rng, [1, .5, 3, 2.0 ** -20]))
+        eo = {'interp_method': gens.pick(rng, ['splrep', 'pchip'])}
     if rng.random() < .04:
         kind, n = 'dynamic-range', int(gens.pick(rng, [600, 1500, 2000]))
         x = dynamic_range(rng, n)
         eo = {'interp_method': 'splrep'}
     xp, _, tag = gens.present(rng, x, p_plain=.8)
-    if tag == 'strided':
+    if tag in gens.VIEWS:
         xp = x
-    return {'kind': 'gni', 'family': kind, 'x': xp, 'opts': rand_opts(rng),
+    opts = rand_opts(rng)
+    if kind == 'symmetric' and rng.random() < .7:
+        opts['energy_thresh'] = float(gens.pick(rng, [5, 10, 20, 50]))
+    return {'kind': 'gni', 'family': kind, 'x': xp, 'opts': opts,
             'envelope_opts': eo, 'extrema_opts': gens.ext_opts(rng), 'presentation': tag}
 
 
@@ -100,8 +109,8 @@ def check_case(ctx, case):
     from emd import sift as S
     from emd.support import EMDSiftCovergeError
     xin = np.asarray(case['x'])
-    if case.get('presentation') == 'strided':
-        xin, _ = gens.relayout(None, xin, 'strided')
+    if case.get('presentation') in gens.VIEWS:
+        xin, _ = gens.relayout(None, xin, case['presentation'])
     x = np.asarray(xin, dtype=float)
     ctx.count('presentation:' + case.get('presentation', 'plain'))
     opts = dict(case['opts'])
@@ -138,7 +147,7 @@ def check_case(ctx, case):
     xo_shared = SHARED.setdefault(('x', repr(sorted(xo.items()))), dict(xo))
     try:
         with probe, watchdog(60):
-            out, flag = S.get_next_imf(xin if case.get('presentation') == 'strided' else xin.copy(), envelope_opts=eo_shared, extrema_opts=xo_shared, **opts)
+            out, flag = S.get_next_imf(xin if case.get('presentation') in gens.VIEWS else xin.copy(), envelope_opts=eo_shared, extrema_opts=xo_shared, **opts)
         got = 'ret'
     except WatchdogTimeout:
         ctx.count('watchdog')
@@ -216,7 +225,13 @@ def check_case(ctx, case):
     if en is not None and exp_flag:
         e1 = float(np.sum(x ** 2))
         e2 = float(np.sum((x.reshape(-1, 1) - m_val) ** 2))
-        if e1 > 0 and e2 > 0:
+        if e1 > 0 and e2 == 0:
+            # nothing was removed: the ratio of the energies is infinite, above any threshold
+            judged_energy = True
+            exp_flag = False
+            ctx.count('energy_judged')
+            ctx.count('energy_fired_with_zero_residue')
+        elif e1 > 0 and e2 > 0:
             db = 20 * np.log10(e1) - 20 * np.log10(e2)
             if abs(db - en) >= 1.0:
                 judged_energy = True
